@@ -317,6 +317,7 @@ type obligationResult struct {
 	MoreReach   []reachWitness
 	Incon       []string
 	Queries     int
+	Cached      int // of Queries: answered from the in-process cache of identical query texts
 	Sat, Unsat  int
 	Unknown     int
 	SolverTime  time.Duration
@@ -423,12 +424,14 @@ func (e *engine) runObligation(fn *ssa.Function, maxPaths int) *obligationResult
 					if m.solFP != nil {
 						m.solFP.stop()
 						res.Queries += m.solFP.queries
+						res.Cached += m.solFP.cached
 						res.Sat += m.solFP.sat
 						res.Unsat += m.solFP.unsat
 						res.Unknown += m.solFP.unknown
 						res.SolverTime += m.solFP.time
 					}
 					res.Queries += m.sol.queries
+					res.Cached += m.sol.cached
 					res.Sat += m.sol.sat
 					res.Unsat += m.sol.unsat
 					res.Unknown += m.sol.unknown
